@@ -66,6 +66,10 @@ def run(ch, tier):
         sims.append(Sim(sp, probe=P))
     glog = []
     calls = [Recorder('c%d' % j, glog) for j in range(ncall)]
+    for c_ in calls:
+        if cs.flag(1, 3):
+            c_.queue = []       # a callable that happens to keep an inbox called `queue` is still a callable
+            res.stats['callable_with_queue_attribute'] += 1
     bound = {i: [] for i in range(nint)}       # sender -> ordered list of (target key, listener)
 
     def detach_now(snd, key):
@@ -108,6 +112,14 @@ def run(ch, tier):
                 if len(glog) != mark:
                     return res.fail('delivery-in-failed-step', 'deliveries during a step that raised %s' % r.exc_name(), **ctx())
                 return None
+            tb = r.exc.__traceback__
+            files = []
+            while tb is not None:
+                files.append(tb.tb_frame.f_code.co_filename.rsplit('/', 1)[-1] + ':' + tb.tb_frame.f_code.co_name)
+                tb = tb.tb_next
+            if any(f.startswith('listener.py') or f.endswith(':_raise_event') for f in files):
+                return res.fail('delivery-raised', 'step of i%d raised %s while delivering a sent event to the bound targets %s: %s' % (
+                    i, r.exc_name(), [k for k, _ in targets], str(r.exc)[:100]), **ctx())
             raise Abandon('other: unexpected %s' % r.exc_name())
         # --- receiver-side consumption (queue discipline of whoever steps)
         eventless = r.ms is not None and any(t.event is None for t in r.ms.transitions)
@@ -152,14 +164,14 @@ def run(ch, tier):
                     j = int(key[1:])
                     d = e.data.get('delay')
                     sims[j].expect_external(e.data.get('uid'), e.name, sims[j].lastT + (F(d) if d is not None else 0))
-        if {k: [x for x, _ in v] for k, v in mb.items()} != {k: [x for x, _ in v] for k, v in bound.items()}:
-            raise RuntimeError('harness: binding model out of sync')
         got = glog[mark:]
         if got != want:
             k = next((k for k, (x, y) in enumerate(zip(got, want)) if x != y), min(len(got), len(want)))
             return res.fail('callable-deliveries', 'step of i%d sent %s with callable targets %s bound: delivery %d is %r, expected %r' % (
                 i, [(e.name, e.data.get('uid')) for e in sent], [k2 for k2, _ in targets if k2.startswith('c')], k,
                 got[k] if k < len(got) else 'missing', want[k] if k < len(want) else 'none'), **ctx())
+        if {k: [x for x, _ in v] for k, v in mb.items()} != {k: [x for x, _ in v] for k, v in bound.items()}:
+            raise RuntimeError('harness: binding model out of sync although the deliveries were the expected ones')
         if sent and len(targets) >= 2:
             res.nontrivial.add(fp((cfp, sorted(topo().items()), i, [(e.name, e.data.get('delay')) for e in sent])))
             res.stats['sender_steps_with_2plus_targets'] += 1
